@@ -68,6 +68,11 @@ func (s *Service) SyncCommitteeContribution(ctx context.Context,
 				return
 			}
 			contribution := contributionResponse.Data
+			if contribution == nil {
+				log.Warn().Dur("elapsed", time.Since(started)).Msg("Obtained nil sync committee contribution")
+
+				return
+			}
 			log.Trace().Str("provider", name).Dur("elapsed", time.Since(started)).Msg("Obtained sync committee contribution")
 
 			ch <- contribution
